@@ -23,7 +23,19 @@ package c19
 //   recv l tok kind to amt memo snd   inbound packet (tok F|N|U returning home, V|X|A vouchers; kind hex|bech|bad)
 //   send l a tok amt                  EVM-started transfer through the precompile (tok F|A|N)
 //   csend l a tok amt                 cosmos-side MsgTransfer (tok F|N|U)
-//   ack l seq ok|err   /  timeout l seq
+//   ack l seq <shape>  /  timeout l seq     shape = the acknowledgement AS IT IS ON THE WIRE: ok (result with content),
+//                                     okempty (result without), err (error with a reason), errempty (error with an EMPTY
+//                                     reason), unset (neither arm), bad (bytes the codec rejects); what the shape MEANS
+//                                     is decided by decoding the bytes with the real codec, never by the harness
+//
+// Two ways of playing IBC core, drawn per sequence (same op lines, same model):
+//   mimic  the callbacks are called directly (cache committed only on a successful acknowledgement, commitment deleted
+//          before the acknowledgement callback, a callback error reverts the step);
+//   core   the channels sit on the 09-localhost client / sentinel localhost connection and every receive,
+//          acknowledgement and timeout is the REAL ibc-go core message handler (IBCKeeper.RecvPacket / Acknowledgement /
+//          Timeout): proof verification against this chain's own store (the harness writes what the counterparty would
+//          have committed under ITS channel id), replay protection, the cache around the receive callback,
+//          WriteAcknowledgement, commitment deletion, timeout-elapsed check.
 
 import (
 	"bytes"
@@ -35,6 +47,7 @@ import (
 	"strconv"
 	"strings"
 	"testing"
+	"time"
 
 	sdkmath "cosmossdk.io/math"
 	sdk "github.com/cosmos/cosmos-sdk/types"
@@ -45,6 +58,8 @@ import (
 	clienttypes "github.com/cosmos/ibc-go/v8/modules/core/02-client/types"
 	channeltypes "github.com/cosmos/ibc-go/v8/modules/core/04-channel/types"
 	host "github.com/cosmos/ibc-go/v8/modules/core/24-host"
+	ibcexported "github.com/cosmos/ibc-go/v8/modules/core/exported"
+	localhost "github.com/cosmos/ibc-go/v8/modules/light-clients/09-localhost"
 	"github.com/ethereum/go-ethereum/common"
 	ethtypes "github.com/ethereum/go-ethereum/core/types"
 	evmtypes "github.com/evmos/ethermint/x/evm/types"
@@ -156,6 +171,8 @@ type env struct {
 	callers map[common.Address]map[string]bool // memo-call sender -> set of "local channel/original sender"
 	derived map[common.Address]string           // every address IntermediateSender can produce here -> "<channel number>/<sender>"
 	pending map[string]bool
+	core    bool   // IBC core is the real one (localhost client), not mimicked
+	recvSeq uint64 // core mode: sequences of inbound packets (a range no outbound packet uses)
 }
 
 // pendingKnown: violation classes that are genuine defects of /repo proposed in fixes/C19-known.json but not (yet) listed
@@ -415,6 +432,15 @@ func (e *env) setup(ls, cps []int) {
 			panic("channel not found")
 		}
 		c.Counterparty.ChannelId = ch.cp
+		if e.core {
+			// an ICS-20 channel over the sentinel localhost connection: proofs are verified against this chain's own store
+			e.localhostConnection()
+			c.Ordering = channeltypes.UNORDERED
+			c.ConnectionHops = []string{ibcexported.LocalhostConnectionID}
+			c.Version = transfertypes.Version
+			s.App.IBCKeeper.ChannelKeeper.SetNextSequenceRecv(s.Ctx, port, id, 1)
+			s.App.IBCKeeper.ChannelKeeper.SetNextSequenceAck(s.Ctx, port, id, 1)
+		}
 		s.App.IBCKeeper.ChannelKeeper.SetChannel(s.Ctx, port, id, c)
 		s.App.IBCKeeper.ChannelKeeper.SetNextSequenceSend(s.Ctx, port, id, 1)
 		ch.vA, ch.vV, ch.vX = voucher(l, remoteA), voucher(l, remoteV), voucher(l, remoteX)
@@ -456,6 +482,41 @@ func (e *env) setup(ls, cps []int) {
 	if err := s.App.EvmKeeper.CreateContractWithCode(s.Ctx, e.revC, codeRevert); err != nil {
 		panic(err)
 	}
+}
+
+// localhostConnection: the 09-localhost client and the sentinel connection `connection-localhost` (what ibc-go's
+// InitGenesis / upgrade handler create on a chain that allows the localhost client)
+func (e *env) localhostConnection() {
+	ik := e.s.App.IBCKeeper
+	ctx := e.s.Ctx
+	params := ik.ClientKeeper.GetParams(ctx)
+	allowed := false
+	for _, c := range params.AllowedClients {
+		if c == ibcexported.Localhost || c == "*" {
+			allowed = true
+		}
+	}
+	if !allowed {
+		params.AllowedClients = append(params.AllowedClients, ibcexported.Localhost)
+		ik.ClientKeeper.SetParams(ctx, params)
+	}
+	if _, ok := ik.ClientKeeper.GetClientState(ctx, ibcexported.LocalhostClientID); !ok {
+		if err := ik.ClientKeeper.CreateLocalhostClient(ctx); err != nil {
+			panic(err)
+		}
+	}
+	ik.ConnectionKeeper.CreateSentinelLocalhostConnection(ctx)
+}
+
+// emitCore records in the op script how IBC core is played in this sequence (a replay plays it the same way)
+func (e *env) emitCore() {
+	e.out.Emit(fmt.Sprintf("core %d", map[bool]int{false: 0, true: 1}[e.core]), "ok")
+}
+
+func (e *env) relayer() string { return sdk.AccAddress(common.BytesToAddress([]byte("c19-relayer-xxxxxxxx")).Bytes()).String() }
+
+func (e *env) proofHeight(ctx sdk.Context) clienttypes.Height {
+	return clienttypes.NewHeight(0, uint64(ctx.BlockHeight()))
 }
 
 // meta: what the transfer module's InitGenesis and its MigrateDenomMetadata migration do for every stored denom trace
@@ -670,7 +731,12 @@ func (e *env) recv(l int, tok, rk string, to int, amt int64, memo string, snd in
 		local0[id] = e.holdings(e.localAddr(id))
 	}
 	data := transfertypes.NewFungibleTokenPacketData(pd, strconv.FormatInt(amt, 10), sender, receiver, e.memo(memo))
-	packet := channeltypes.NewPacket(data.GetBytes(), uint64(1+e.rng.Intn(1000)), port, ch.cp, port, ch.id, clienttypes.NewHeight(100, 100000), 0)
+	pseq := uint64(1 + e.rng.Intn(1000))
+	if e.core {
+		e.recvSeq++
+		pseq = 1_000_000 + e.recvSeq
+	}
+	packet := channeltypes.NewPacket(data.GetBytes(), pseq, port, ch.cp, port, ch.id, clienttypes.NewHeight(100, 100000), 0)
 	mod, _ := s.App.IBCKeeper.Router.GetRoute(transfertypes.ModuleName)
 	h0 := e.holdings(a)
 	m0 := e.marker()
@@ -678,14 +744,42 @@ func (e *env) recv(l int, tok, rk string, to int, amt int64, memo string, snd in
 	saved := s.Ctx
 	cctx, write := saved.CacheContext()
 	ackS := "err"
-	res := hx.Try(func() error {
-		ack := mod.OnRecvPacket(cctx, packet, nil)
-		if ack == nil || ack.Success() {
+	var res string
+	if e.core {
+		// the counterparty committed the packet under ITS channel id; real core verifies that through the localhost client,
+		// runs the callback on a cache of its own and writes the acknowledgement
+		successAck := channeltypes.CommitAcknowledgement(channeltypes.NewResultAcknowledgement([]byte{byte(1)}).Acknowledgement())
+		msg := &channeltypes.MsgRecvPacket{Packet: packet, ProofCommitment: localhost.SentinelProof, ProofHeight: e.proofHeight(cctx), Signer: e.relayer()}
+		res = hx.Try(func() error {
+			s.App.IBCKeeper.ChannelKeeper.SetPacketCommitment(cctx, port, ch.cp, pseq, channeltypes.CommitPacket(s.App.AppCodec(), packet))
+			if _, err := s.App.IBCKeeper.RecvPacket(cctx, msg); err != nil {
+				return err
+			}
+			got, found := s.App.IBCKeeper.ChannelKeeper.GetPacketAcknowledgement(cctx, port, ch.id, pseq)
+			if !found {
+				return fmt.Errorf("core wrote no acknowledgement")
+			}
+			if bytes.Equal(got, successAck) {
+				ackS = "ok"
+			}
+			return nil
+		})
+		if res == "ok" {
 			write()
-			ackS = "ok"
+			e.out.Count("core:recv:" + ackS)
+		} else {
+			e.out.Violate(fmt.Sprintf("core: the real IBC core RecvPacket handler failed for a well-formed relay of an inbound packet (tok=%s receiver=%s memo=%s): %s", tok, rk, memo, firstWords(res)))
 		}
-		return nil
-	})
+	} else {
+		res = hx.Try(func() error {
+			ack := mod.OnRecvPacket(cctx, packet, nil)
+			if ack == nil || ack.Success() {
+				write()
+				ackS = "ok"
+			}
+			return nil
+		})
+	}
 	if res != "ok" {
 		ackS = "panic"
 	}
@@ -749,6 +843,32 @@ func (e *env) recv(l int, tok, rk string, to int, amt int64, memo string, snd in
 			}
 		}
 	}
+	if e.core && res == "ok" && e.rng.Intn(4) == 0 {
+		// the relayer (or another relayer) submits the same packet again: the real core answers with a no-op
+		hAll := map[int]map[string]int64{}
+		for _, id := range e.localIds() {
+			hAll[id] = e.holdings(e.localAddr(id))
+		}
+		hr := e.holdings(a)
+		mr := e.marker()
+		rctx, rwrite := s.Ctx.CacheContext()
+		rres := hx.Try(func() error {
+			_, err := s.App.IBCKeeper.RecvPacket(rctx, &channeltypes.MsgRecvPacket{Packet: packet, ProofCommitment: localhost.SentinelProof, ProofHeight: e.proofHeight(rctx), Signer: e.relayer()})
+			return err
+		})
+		if rres == "ok" {
+			rwrite()
+		}
+		e.out.Count("core:recv-replayed:" + firstWords(rres))
+		if _, ds2 := delta(hr, e.holdings(a)); ds2 != "" || e.marker() != mr {
+			e.out.Violate(fmt.Sprintf("recv: a REPLAYED inbound packet credited again / ran its memo call again: receiver's holdings changed by [%s], memo calls %d (%s)", ds2, e.marker()-mr, class))
+		}
+		for _, id := range e.localIds() {
+			if _, dl := delta(hAll[id], e.holdings(e.localAddr(id))); dl != "" {
+				e.out.Violate(fmt.Sprintf("recv: a REPLAYED inbound packet changed the holdings of local account %d by [%s]", id, dl))
+			}
+		}
+	}
 	if ackS == "ok" && memo == "callrev" {
 		e.out.Violate(fmt.Sprintf("recv: the memo call reverted but the packet was acknowledged successfully and its credit kept (%s)", class))
 	}
@@ -790,6 +910,7 @@ func (e *env) send(l, from int, tok string, amt int64, evm bool) {
 	seq, _ := s.App.IBCKeeper.ChannelKeeper.GetNextSequenceSend(s.Ctx, port, ch.id)
 	recipient := common.BytesToAddress([]byte("remote-recipient-xxx")).Hex()
 	rel0 := e.relSet()
+	hs0 := e.holdings(a)
 	ok := false
 	saved := s.Ctx
 	cctx, write := saved.CacheContext()
@@ -811,12 +932,14 @@ func (e *env) send(l, from int, tok string, amt int64, evm bool) {
 		token, value := common.Address{}, big.NewInt(amt)
 		if tok != "F" {
 			token, value = e.ercToken(tok, ch), big.NewInt(0)
-			ap, err := contract.GetFIP20().ABI.Pack("approve", crosschaintypes.GetAddress(), big.NewInt(amt))
-			if err != nil {
-				return err
-			}
-			if r, err := e.ethTx(sg, token, big.NewInt(0), ap); err != nil || r.Failed() {
-				return fmt.Errorf("approve failed")
+			if token != (common.Address{}) { // U / X have no ERC-20 contract: the precompile is called with the zero token
+				ap, err := contract.GetFIP20().ABI.Pack("approve", crosschaintypes.GetAddress(), big.NewInt(amt))
+				if err != nil {
+					return err
+				}
+				if r, err := e.ethTx(sg, token, big.NewInt(0), ap); err != nil || r.Failed() {
+					return fmt.Errorf("approve failed")
+				}
 			}
 		}
 		data, err := crosschaintypes.GetABI().Pack("crossChain", token, recipient, big.NewInt(amt), big.NewInt(0), target, "")
@@ -847,6 +970,9 @@ func (e *env) send(l, from int, tok string, amt int64, evm bool) {
 		e.out.Nontrivial("send|" + tok + "|fail|" + firstWords(res))
 		if !relFrame(rel0, e.relSet(), "", "") {
 			e.out.Violate("send: a failed transfer changed the tracking records")
+		}
+		if _, ds := delta(hs0, e.holdings(a)); ds != "" {
+			e.out.Violate(fmt.Sprintf("send: a FAILED transfer (tok=%s evm=%v) changed the sender's holdings by [%s]", tok, evm, ds))
 		}
 		return
 	}
@@ -900,7 +1026,44 @@ func firstWords(s string) string {
 	return s
 }
 
-// settle = IBC core Acknowledgement / Timeout: only while the commitment exists, which is deleted first
+// ackBytes: the acknowledgement as the counterparty wrote it, for a wire shape, in its canonical JSON encoding (what
+// `Acknowledgement.Acknowledgement()` produces; ibc-go >= 8.6.1 rejects every other spelling)
+func (e *env) ackBytes(shape string) []byte {
+	pick := func(xs ...string) []byte { return []byte(xs[e.rng.Intn(len(xs))]) }
+	switch shape {
+	case "ok":
+		return channeltypes.NewResultAcknowledgement([]byte{1}).Acknowledgement()
+	case "okempty":
+		return []byte(`{"result":""}`)
+	case "err":
+		if e.rng.Intn(3) == 0 {
+			return pick(`{"error":"x"}`, `{"error":"ABCI code: 1: error handling packet: see events for details"}`)
+		}
+		return channeltypes.NewErrorAcknowledgement(fmt.Errorf("rejected")).Acknowledgement()
+	case "errempty":
+		return []byte(`{"error":""}`)
+	case "unset":
+		return []byte(`{}`)
+	}
+	return pick(`not json`, `{"foo":"bar"}`, `[]`, `{"error":`)
+}
+
+// ackClass: what the bytes ARE, by the real codec: "err" (error arm, whatever the text), "ok" (anything else that
+// decodes), "bad" (rejected by the codec)
+func ackClass(raw []byte) string {
+	var ack channeltypes.Acknowledgement
+	if err := transfertypes.ModuleCdc.UnmarshalJSON(raw, &ack); err != nil {
+		return "bad"
+	}
+	if _, isErr := ack.Response.(*channeltypes.Acknowledgement_Error); isErr {
+		return "err"
+	}
+	return "ok"
+}
+
+// settle = IBC core Acknowledgement / Timeout.  mimic: only while the commitment exists, which is deleted first.
+// core: the real message handlers of ibc-go core; the harness writes, as the counterparty, the acknowledgement
+// commitment under the counterparty's channel id (or leaves the receipt absent) and moves the clock past the timeout.
 func (e *env) settle(l int, seq uint64, mode string) {
 	s := e.s
 	ch := e.chans[l]
@@ -908,42 +1071,152 @@ func (e *env) settle(l int, seq uint64, mode string) {
 	if mode == "timeout" {
 		op = fmt.Sprintf("timeout %d %d", l, seq)
 	}
-	if !s.App.IBCKeeper.ChannelKeeper.HasPacketCommitment(s.Ctx, port, ch.id, seq) {
-		e.out.Emit(op, "noop rel="+e.rel())
-		e.out.Count("settle:noop")
-		return
-	}
 	var st *sent
 	for _, x := range e.sents {
 		if x.l == l && x.seq == seq {
 			st = x
 		}
 	}
+	var raw []byte
+	class := "timeout"
+	if mode != "timeout" {
+		raw = e.ackBytes(mode)
+		class = ackClass(raw)
+	}
+	committed := s.App.IBCKeeper.ChannelKeeper.HasPacketCommitment(s.Ctx, port, ch.id, seq)
+	mod, _ := s.App.IBCKeeper.Router.GetRoute(transfertypes.ModuleName)
+	// run: one relay of the acknowledgement / timeout on a branch of the state
+	run := func(cctx sdk.Context) error {
+		if !e.core {
+			cctx.KVStore(s.App.GetKey("ibc")).Delete(host.PacketCommitmentKey(port, ch.id, seq))
+			if mode == "timeout" {
+				return mod.OnTimeoutPacket(cctx, st.packet, nil)
+			}
+			return mod.OnAcknowledgementPacket(cctx, st.packet, raw, nil)
+		}
+		if mode == "timeout" {
+			msg := &channeltypes.MsgTimeout{Packet: st.packet, ProofUnreceived: localhost.SentinelProof, ProofHeight: e.proofHeight(cctx), NextSequenceRecv: 1, Signer: e.relayer()}
+			if err := msg.ValidateBasic(); err != nil {
+				return err
+			}
+			_, err := s.App.IBCKeeper.Timeout(cctx, msg)
+			return err
+		}
+		s.App.IBCKeeper.ChannelKeeper.SetPacketAcknowledgement(cctx, port, ch.cp, seq, channeltypes.CommitAcknowledgement(raw))
+		msg := &channeltypes.MsgAcknowledgement{Packet: st.packet, Acknowledgement: raw, ProofAcked: localhost.SentinelProof, ProofHeight: e.proofHeight(cctx), Signer: e.relayer()}
+		if err := msg.ValidateBasic(); err != nil {
+			return err
+		}
+		_, err := s.App.IBCKeeper.Acknowledgement(cctx, msg)
+		return err
+	}
+	branch := func() (sdk.Context, func()) {
+		cctx, write := s.Ctx.CacheContext()
+		if e.core && mode == "timeout" && st != nil {
+			// the counterparty's clock (the localhost client reads this chain's) has passed the packet's timeout
+			cctx = cctx.WithBlockTime(time.Unix(0, int64(st.packet.TimeoutTimestamp)+1))
+		}
+		return cctx, write
+	}
+	if !committed {
+		if e.core && st != nil {
+			// duplicated / replayed relay through the real core: a no-op that changes nothing and runs no callback
+			a := e.addr(st.from)
+			h0, rel0 := e.holdings(a), e.relSet()
+			cctx, write := branch()
+			res := hx.Try(func() error { return run(cctx) })
+			if res == "ok" {
+				write()
+			}
+			e.out.Count("core:settle-replayed:" + firstWords(res))
+			if _, ds := delta(h0, e.holdings(a)); ds != "" || !relFrame(rel0, e.relSet(), "", "") {
+				e.out.Violate(fmt.Sprintf("refund: a duplicated / replayed %s of an already settled transfer changed the sender's holdings by [%s] (records %s -> %s)", op, ds, e.relStr(rel0), e.rel()))
+			}
+		}
+		e.out.Emit(op, "noop rel="+e.rel())
+		e.out.Count("settle:noop")
+		return
+	}
 	a := e.addr(st.from)
 	h0 := e.holdings(a)
 	rel0 := e.relSet()
-	mod, _ := s.App.IBCKeeper.Router.GetRoute(transfertypes.ModuleName)
-	saved := s.Ctx
-	cctx, write := saved.CacheContext()
-	res := hx.Try(func() error {
-		cctx.KVStore(s.App.GetKey("ibc")).Delete(host.PacketCommitmentKey(port, ch.id, seq))
-		switch mode {
-		case "ok":
-			return mod.OnAcknowledgementPacket(cctx, st.packet, channeltypes.NewResultAcknowledgement([]byte{1}).Acknowledgement(), nil)
-		case "err":
-			return mod.OnAcknowledgementPacket(cctx, st.packet, channeltypes.NewErrorAcknowledgement(fmt.Errorf("rejected")).Acknowledgement(), nil)
-		default:
-			return mod.OnTimeoutPacket(cctx, st.packet, nil)
+	if mode != "timeout" && e.rng.Intn(6) == 0 {
+		// a hostile counterparty's acknowledgement with BOTH arms of the oneof: whatever it is taken for, every relay of the
+		// same bytes from the same state must end the same way (monitor only: throw-away branches, nothing is written)
+		saveRaw := raw
+		outcomes := map[string]bool{}
+		for _, both := range []string{`{"result":"AQ==","error":"rejected"}`, `{"error":"rejected","result":"AQ=="}`} {
+			raw = []byte(both)
+			for i := 0; i < 12; i++ {
+				bctx, _ := branch()
+				r := hx.Try(func() error { return run(bctx) })
+				saved := s.Ctx
+				s.Ctx = bctx
+				_, ds := delta(h0, e.holdings(a))
+				o := fmt.Sprintf("%s: sender [%s] records [%s]", map[bool]string{true: "processed", false: "callback failed"}[r == "ok"], ds, e.rel())
+				s.Ctx = saved
+				if r != "ok" {
+					o = "callback failed"
+				}
+				outcomes[o] = true
+			}
 		}
-	})
+		raw = saveRaw
+		e.out.Count(fmt.Sprintf("ack-both-arms:distinct-outcomes=%d", len(outcomes)))
+		if len(outcomes) > 1 {
+			var os []string
+			for o := range outcomes {
+				os = append(os, o)
+			}
+			sort.Strings(os)
+			e.violate("ack-both-arms-nondeterministic", fmt.Sprintf("ack: an acknowledgement carrying BOTH a result and an error is settled differently from one relay of the same bytes on the same state to the next (tok=%s evm=%v): %s", st.tok, st.evm, strings.Join(os, " | ")))
+		}
+	}
+	if class != "ok" && class != "bad" && st.evm && st.tok == "A" && e.convertible("A", ch) && e.rng.Intn(5) == 0 {
+		// the chain is restarted from an exported genesis while the transfer is in flight (monitor only, throw-away branch):
+		// the erc20 module's state is replaced by InitGenesis(ExportGenesis()), then the same relay arrives.  IBC core exports
+		// its packet commitments, so the packet is still refundable — in ERC-20 form only if the tracking record travelled too
+		bctx, _ := branch()
+		gres := hx.Try(func() error {
+			gs := s.App.Erc20Keeper.ExportGenesis(bctx)
+			store := bctx.KVStore(s.App.GetKey(erc20types.StoreKey))
+			var keys [][]byte
+			it := store.Iterator(nil, nil)
+			for ; it.Valid(); it.Next() {
+				keys = append(keys, append([]byte{}, it.Key()...))
+			}
+			it.Close()
+			for _, k := range keys {
+				store.Delete(k)
+			}
+			s.App.Erc20Keeper.InitGenesis(bctx, *gs)
+			return run(bctx)
+		})
+		saved := s.Ctx
+		s.Ctx = bctx
+		_, gds := delta(h0, e.holdings(a))
+		s.Ctx = saved
+		e.out.Count("genesis-roundtrip-then-refund:" + map[bool]string{true: "erc20-form", false: "other"}[gres == "ok" && gds == fmt.Sprintf("erc:base%+d", st.amt)])
+		if gres != "ok" || gds != fmt.Sprintf("erc:base%+d", st.amt) {
+			e.violate("genesis-drops-relations", fmt.Sprintf("refund: after an export / import of the erc20 module's genesis an in-flight EVM-originated transfer of %d is refunded as [%s] (callback: %s), expected [erc:base%+d]: the tracking records are not part of the genesis state (tok=A mode=%s)", st.amt, gds, firstWords(gres), st.amt, mode))
+		}
+	}
+	cctx, write := branch()
+	res := hx.Try(func() error { return run(cctx) })
 	den := bankDenom(st.tok, ch)
-	class := fmt.Sprintf("tok=%s evm=%v mode=%s", st.tok, st.evm, mode)
+	clsTxt := fmt.Sprintf("tok=%s evm=%v mode=%s", st.tok, st.evm, mode)
+	e.out.Count("ack-shape:" + mode + ":decodes-as=" + class + fmt.Sprintf(":core=%v", e.core))
 	if res != "ok" {
 		// the relayer's transaction fails and is rolled back: the packet stays committed
 		e.out.Emit(op, "stuck rel="+e.rel())
 		e.out.Count("settle:stuck:" + st.tok)
 		e.out.Nontrivial("settle|stuck|" + st.tok + "|" + mode)
 		switch {
+		case class == "bad":
+			// bytes the codec rejects: the transfer application cannot process them, on any chain
+			e.out.Count("settle:stuck:undecodable-acknowledgement")
+		case class == "ok":
+			e.out.Violate(fmt.Sprintf("settle: the callback of a SUCCESS acknowledgement failed (%s): %s", clsTxt, firstWords(res)))
 		case st.tok != "A" && e.bal(transfertypes.GetEscrowAddress(port, ch.id), den) < st.amt:
 			// a counterparty that returned more than it ever received emptied the escrow account: out of scope
 			e.out.Count("settle:stuck:escrow-drained-by-dishonest-counterparty")
@@ -951,14 +1224,20 @@ func (e *env) settle(l int, seq uint64, mode string) {
 			// conversion is switched off right now: the callback must fail so that IBC core keeps the packet for a retry
 			e.out.Count("settle:stuck:conversion-disabled-retry-later")
 		case st.tok == "A" && ch.meta:
-			e.violate("alias-metadata-refund", fmt.Sprintf("settle: refund callback fails, the transfer can never be refunded: aliased voucher has bank metadata (%s): %s", class, firstWords(res)))
+			e.violate("alias-metadata-refund", fmt.Sprintf("settle: refund callback fails, the transfer can never be refunded: aliased voucher has bank metadata (%s): %s", clsTxt, firstWords(res)))
 		default:
-			e.out.Violate(fmt.Sprintf("settle: callback failed, acknowledgement/timeout can never be processed (%s): %s", class, res))
+			e.out.Violate(fmt.Sprintf("settle: callback failed, acknowledgement/timeout can never be processed (%s): %s", clsTxt, res))
 		}
 		return
 	}
 	write()
-	st.done = mode
+	if class == "bad" {
+		e.out.Violate(fmt.Sprintf("settle: an acknowledgement the codec rejects was processed (%s)", clsTxt))
+	}
+	if s.App.IBCKeeper.ChannelKeeper.HasPacketCommitment(s.Ctx, port, ch.id, seq) {
+		e.out.Violate(fmt.Sprintf("core: the packet commitment survived a processed %s", op))
+	}
+	st.done = class
 	esc, tm, v := int64(0), int64(0), int64(0)
 	bk := den
 	if st.tok == "A" {
@@ -972,14 +1251,15 @@ func (e *env) settle(l int, seq uint64, mode string) {
 	e.checkLedger(op)
 	e.out.Count("settle:" + mode + ":" + st.tok + fmt.Sprintf(":evm=%v", st.evm))
 	e.out.Count("settle-channel:" + map[bool]string{true: "local==counterparty", false: "local!=counterparty"}[ch.l == ch.r])
-	e.out.Nontrivial(fmt.Sprintf("settle|%s|%s|evm=%v", mode, st.tok, st.evm))
+	e.out.Nontrivial(fmt.Sprintf("settle|%s|%s|evm=%v|core=%v", mode, st.tok, st.evm, e.core))
 
 	// ---- monitors -------------------------------------------------------------------------------------------
 	own := e.relKey(l, seq)
 	after := e.relSet()
-	modeTxt := map[string]string{"ok": "a success acknowledgement", "err": "an error acknowledgement", "timeout": "a timeout"}[mode]
+	modeTxt := map[string]string{"ok": "a success acknowledgement", "okempty": "a result acknowledgement without content", "unset": "an acknowledgement with neither result nor error",
+		"err": "an error acknowledgement", "errempty": "an error acknowledgement with an EMPTY reason", "timeout": "a timeout", "bad": "undecodable bytes"}[mode]
 	if after[own] {
-		e.out.Violate(fmt.Sprintf("relation: tracking record of an EVM-originated transfer is kept after %s (local channel %d != counterparty channel %d: %v, %s)", modeTxt, ch.l, ch.r, ch.l != ch.r, class))
+		e.out.Violate(fmt.Sprintf("relation: tracking record of an EVM-originated transfer is kept after %s (local channel %d != counterparty channel %d: %v, %s)", modeTxt, ch.l, ch.r, ch.l != ch.r, clsTxt))
 	}
 	delete(after, own)
 	b0 := map[string]bool{}
@@ -994,7 +1274,8 @@ func (e *env) settle(l int, seq uint64, mode string) {
 	e.checkRecords(op)
 	_, ds := delta(h0, e.holdings(a))
 	want := map[string]int64{}
-	if mode != "ok" {
+	if class != "ok" {
+		// rejected (the error arm, whatever its text) or timed out: everything comes back, in the form it left in
 		switch {
 		case st.evm && st.tok == "A":
 			want["erc:base"] = st.amt
@@ -1004,7 +1285,7 @@ func (e *env) settle(l int, seq uint64, mode string) {
 	}
 	_, ws := delta(map[string]int64{}, want)
 	if ds != ws {
-		e.out.Violate(fmt.Sprintf("refund: transfer of %d settled by %s changed the sender's holdings by [%s], expected [%s] (%s)", st.amt, modeTxt, ds, ws, class))
+		e.out.Violate(fmt.Sprintf("refund: transfer of %d settled by %s changed the sender's holdings by [%s], expected [%s] (%s)", st.amt, modeTxt, ds, ws, clsTxt))
 	}
 	if st.evm && st.tok == "A" {
 		st.refund += e.ercOf(e.ercBase, a) - h0["erc:base"]
@@ -1055,7 +1336,7 @@ func (e *env) exec(line string) {
 }
 
 // runFile replays an op file: `# …` comment lines, an optional `reset`, three `chan l r` lines, then ops
-func runFile(t *testing.T, out *hx.Out, rng *rand.Rand, pending map[string]bool, path string) {
+func runFile(t *testing.T, out *hx.Out, rng *rand.Rand, pending map[string]bool, path string, core bool) {
 	var lines []string
 	for _, l := range hx.ReadLines(path) {
 		l = strings.TrimSpace(l)
@@ -1068,6 +1349,10 @@ func runFile(t *testing.T, out *hx.Out, rng *rand.Rand, pending map[string]bool,
 	rest := lines[:0:0]
 	for _, l := range lines {
 		f := strings.Fields(l)
+		if len(f) == 2 && f[0] == "core" {
+			core = f[1] == "1"
+			continue
+		}
 		if len(f) == 3 && f[0] == "chan" {
 			a, _ := strconv.Atoi(f[1])
 			b, _ := strconv.Atoi(f[2])
@@ -1077,7 +1362,9 @@ func runFile(t *testing.T, out *hx.Out, rng *rand.Rand, pending map[string]bool,
 		rest = append(rest, l)
 	}
 	e := newEnv(t, out, rng, pending)
+	e.core = core
 	out.Reset()
+	e.emitCore()
 	e.setup(ls, cps)
 	for _, l := range rest {
 		e.exec(l)
@@ -1118,6 +1405,9 @@ func (e *env) avail(l int, tok string) int64 {
 func (e *env) generate(nops int) {
 	rng, out := e.rng, e.out
 	memos := []string{"none", "junk", "callok", "callrev", "callok", "callpay"}
+	// acknowledgements as they are on the wire: mostly what an ibc-go counterparty writes, else every other shape
+	shapes := []string{"ok", "err", "timeout", "ok", "err", "timeout", "errempty", "errempty", "okempty", "unset", "bad"}
+	shape := func() string { return shapes[rng.Intn(len(shapes))] }
 	// what stands in the packet's sender field: mostly a remote string; else the hex / bech32 address of a funded local
 	// account, of the erc20 module account, of a contract
 	senders := []int{0, 1, 0, 1, 0, 1, 10001, 10002, 10003, 10004, 20001, 20002, 10000 + idErc20Mod, 10000 + idContract, 20000 + idErc20Mod}
@@ -1157,7 +1447,13 @@ func (e *env) generate(nops int) {
 				}
 				e.send(l, from, tok, amt, false)
 			} else {
-				tok := []string{"A", "A", "A", "A", "F", "F", "N"}[rng.Intn(7)]
+				// every token class through the precompile: only the aliased token and FX can leave that way
+				tok := []string{"A", "A", "A", "A", "F", "F", "N", "A", "A", "V", "U", "X", "N", "V"}[rng.Intn(14)]
+				if tok == "V" {
+					if have := e.ercOf(e.chans[l].ercV, e.addr(from)); have > 0 && rng.Intn(3) != 0 {
+						amt = 1 + rng.Int63n(have) // the sender really holds the voucher's ERC-20 (credited by an earlier receive)
+					}
+				}
 				if tok == "A" && rng.Intn(8) == 0 {
 					amt = e.ercOf(e.ercBase, e.addr(from)) + int64(rng.Intn(2))
 				}
@@ -1254,9 +1550,9 @@ func (e *env) generate(nops int) {
 				x := e.sents[rng.Intn(len(e.sents))]
 				l, seq = x.l, x.seq
 			}
-			e.settle(l, seq, []string{"ok", "err", "timeout"}[rng.Intn(3)])
+			e.settle(l, seq, shape())
 			if rng.Intn(4) == 0 {
-				e.settle(l, seq, []string{"ok", "err", "timeout"}[rng.Intn(3)])
+				e.settle(l, seq, shape())
 			}
 		}
 	}
@@ -1273,7 +1569,7 @@ func (e *env) generate(nops int) {
 	}
 	for _, x := range e.sents {
 		if x.done == "" && x.evm && x.tok == "A" {
-			e.settle(x.l, x.seq, []string{"err", "timeout", "ok"}[rng.Intn(3)])
+			e.settle(x.l, x.seq, []string{"err", "timeout", "ok", "errempty", "okempty", "unset"}[rng.Intn(6)])
 		}
 	}
 	e.finish()
@@ -1286,14 +1582,15 @@ func TestC19(t *testing.T) {
 	defer out.Close("real middleware stack on three open channels whose local and counterparty ids are drawn independently (equal, crossed, two counterparties with the same id): recv x {FX, native coin with / without ERC-20 pair returning home, voucher with own pair, unregistered voucher, aliased voucher} x {hex, bech32, malformed} x {no memo, junk memo, memo call ok, memo call reverting} x amounts (0, 1, boundary of the escrow, random) x honest / over-returning counterparty; EVM-originated sends through the crossChain precompile (aliased ERC-20, FX, native ERC-20) and cosmos-side sends (FX, native coins); ack ok / ack error / timeout in random order with duplicates and replays, equal sequence numbers in flight on several channels; corpus of hand-written scenarios first. monitors: receiver's complete holdings change by exactly the amount in ERC-20 form or not at all; refund exactly once, to the sender, in the form the transfer started in; tracking record of exactly that (local channel, sequence) gone after success, failure, timeout and no other record touched; memo-call senders distinct per (local channel, original sender) and never a local account. non-trivial = distinct (op kind, token, receiver kind, memo, outcome)")
 	pending := parsePending()
 	if rf := hx.ReplayFile(); rf != "" {
-		runFile(t, out, rng, pending, rf)
+		runFile(t, out, rng, pending, rf, false) // a `core 0|1` line of the file decides
 		return
 	}
 	if dir := os.Getenv("VERIF_CORPUS"); dir != "" {
 		ents, _ := os.ReadDir(dir)
 		for _, en := range ents {
 			if strings.HasSuffix(en.Name(), ".ops") {
-				runFile(t, out, rng, pending, dir+"/"+en.Name())
+				runFile(t, out, rng, pending, dir+"/"+en.Name(), false)
+				runFile(t, out, rng, pending, dir+"/"+en.Name(), true)
 				out.Count("corpus-file")
 			}
 		}
@@ -1305,7 +1602,9 @@ func TestC19(t *testing.T) {
 	topologies := [][]int{{1, 0, 2}, {0, 1, 2}, {11, 1, 1}, {1, 2, 0}, {5, 5, 7}, {1, 1, 1}}
 	for i := 0; i < nseq; i++ {
 		e := newEnv(t, out, rng, pending)
+		e.core = (i/len(locals))%2 == 1 || (i%5 == 3) // every topology under both ways of playing IBC core
 		out.Reset()
+		e.emitCore()
 		ls := locals[i%len(locals)]
 		cps := topologies[i%len(topologies)]
 		if rng.Intn(4) == 0 {
@@ -1313,6 +1612,7 @@ func TestC19(t *testing.T) {
 		}
 		e.setup(ls, cps)
 		out.Count(fmt.Sprintf("topology:local%v:counterparty%v", ls, cps))
+		out.Count(fmt.Sprintf("ibc-core:real=%v", e.core))
 		e.generate(hx.N(60, 140))
 	}
 }
